@@ -303,6 +303,7 @@ def mc_module(chk, name, prog, ext_menu=(), max_ext=1, max_cancel=0, dev=None, w
         gi = next((i for i, o in enumerate(ops) if o["op"] == "gate"), len(ops))
         pre, body = ops[:gi], ops[gi:]
         assert all(o["op"] in ("send", "publish") for o in pre), "only sends may precede the first gate"
+        assert not any(o.get("cont") for o in sc_["body"]), "a collect that goes on when its set is incomplete is not modelled"
         for i, o in enumerate(body):
             if o["op"] == "send":
                 assert not any(x["op"] in ("fail", "wait", "collect") for x in body[:i]), \
